@@ -40,6 +40,7 @@ def run(ctx):
     ctx.undecided = "the polynomial identities (degree exactly t-1, reconstruction values): numeric."
     ctx.floor = 20
     P = ctx.prog
+    wrappers(ctx, ['keys::generate_with_dealer', 'keys::split', 'keys::reconstruct'])
     validate_ok = check_validate(ctx)
 
     gsp = ctx.anchor(CORE + "keys::generate_secret_polynomial")
